@@ -3,9 +3,16 @@ import re
 
 
 def sig_c16(f):
-    """One narrow signature per distinct defect: the top go-task frame of the panic stack plus the
-    class of the panic message (computed by the driver), e.g.
-    panic:taskfile/ast.(*Var).UnmarshalYAML:index-out-of-range ; timeouts and undocumented exit codes likewise."""
+    """One narrow signature per distinct defect.
+
+    For a panic: the top go-task frame of the panic stack (closure / range-func suffixes and line
+    numbers removed) plus the class of the panic message, as computed by the driver, e.g.
+      panic:taskfile/ast.(*Var).UnmarshalYAML:index-out-of-range
+      panic:internal/templater.ReplaceGlobs:nil-deref
+    For a hang: timeout:<phase>.  For an exit code outside errors/errors.go: exit-code:<n>.
+    The driver puts it on the first line of an impl_failure's message ("sig=...") and into the observed
+    outcome stored with the case input, so that a monitor failure (R_mon) of the same case maps to the same
+    signature.  A disagreement between model and implementation gets its own signature (never in known.d)."""
     k = f.get("kind", "")
     detail = f.get("detail") or ""
     m = re.match(r"sig=(\S+)", detail)
@@ -23,7 +30,6 @@ def sig_c16(f):
             return "exit-code:%s" % obs.get("code")
         return "R_mon:?"
     if k in ("R_tree", "R_decode", "R_snip", "R_loc", "R_wild"):
-        # a disagreement between model and implementation
         return "%s:%s" % (k, obs.get("sig") or obs.get("class") or "?")
     return k
 
@@ -32,12 +38,35 @@ PROPS = {
     "C16": dict(
         src="Properties/C16.v", target="Properties/C16.vo",
         support=["Decode/Model.vo"], run_targets=["Run/DecodeCases.vo"],
-        drivers=[dict(name="decode", n_quick=2400, n_thorough=40000, shard=300,
+        drivers=[dict(name="decode", n_quick=2400, n_thorough=24000, shard=300,
                       results={"R_mon": "mon", "R_decode": "agree", "R_tree": "agree",
                                "R_snip": "agree", "R_loc": "agree", "R_wild": "agree"})],
         signature=sig_c16,
-        rule="TODO",
-        assumptions=[],
-        trusted=[],
+        rule="PARTIAL (DESIGN 5 C16, 8): the theorems cover go-task's own decode / compile / snippet / include-location logic over abstract node trees; "
+             "yaml.v3, text/template, regexp, chroma, giturls are oracles in the model and are covered by this fuzz only (not proof). "
+             "cases: (tree) node trees generated along the Taskfile schema with deviations at every node (null / empty map / empty seq / wrong kind, nulls in list positions, "
+             "regex metacharacters in names, odd include locations, timestamps), every single-node mutation of a maximal well-formed Taskfile (a slice per shard in the quick tier, all in the thorough tier), "
+             "serialised to YAML and run in-process through the REAL yaml.Unmarshal into ast.Taskfile -> Executor.Setup -> GetTask/FastCompiledTask/CompiledTask of every task and of a few requested names "
+             "-> ListTasks (plain, JSON) -> dry Run of every task, each under recover and a deadline in a child process that is replaced when a goroutine of go-task panics or hangs; "
+             "(bytes) malformed byte streams (CR / NEL / LS / PS terminators, BOMs, aliases, merge keys, tags, deep nesting, damaged documents): monitor only; "
+             "(snip / loc / wild) unit probes of taskfile.NewSnippet, taskfile.NewNode and ast.Task.WildcardMatch; "
+             "a sample of the documents also through the real CLI ($VERIF_TASK_BIN under a SIGKILL deadline): exit code must be one of errors/errors.go and the output must not hold panic: / goroutine. "
+             "R_mon = mon_C16 (no panic, no hang, documented exit code) on the observed outcome; R_decode = exact outcome of the decoder vs decode_taskfile; "
+             "R_tree = observed outcome fits predict (panic site in must++may, no panic when must is non-empty is a disagreement, exact outcome when the model determines it); "
+             "R_snip / R_loc / R_wild = panic-or-not vs snippet_bounds / new_node / wildcard_compile. The model variant is `current`, built from the extracted guard facts. "
+             "A real panic or hang is an impl_failure whatever the model says (a hang during the dry run is inconclusive: executing is outside C16's termination clause). "
+             "non-trivial = at least one probe ran; distinct = distinct (kind, input bytes, outcome) tuples",
+        assumptions=[
+            "claimed level: partial — bytes -> node tree (yaml.v3's scanner/parser/resolver), template parsing and execution, regexp compilation, chroma highlighting and giturls parsing are NOT modelled; "
+            "their verdicts enter the model as oracles (theorems quantify over all oracles) and their own crash-freedom is only sampled by the fuzz",
+            "C16_no_panic_compile for a variant that keeps regexp.MustCompile assumes the law of regexp that a QuoteMeta'd literal always compiles (hypothesis inside all_guards; not needed when Compile's error is handled)",
+            "the reader is modelled as a sequential depth-first walk; the real one runs the includes of a file on goroutines (a panic on any of them ends the process: first_panic), termination is proved for the walk",
+            "run-time behaviour beyond the guards of RunTask (platform / requires) is not modelled; sites reachable only after unmodelled checks are predicted as 'may'",
+        ],
+        trusted=[
+            "modelled as oracles, not verified: gopkg.in/yaml.v3 (parser, tag resolution, generic decoding rules as transcribed in Decode/Model.v), text/template + sprig, regexp, chroma, chainguard-dev/git-urls, semver, time.ParseDuration",
+            "the driver's rendering of node trees to YAML (flow style, double-quoted strings, untagged scalars) and its panic-signature extraction from Go stack traces",
+            "extract/facts_decode.go: syntactic guard detection (len check, nil comparison in the range loop, QuoteMeta / MustCompile calls, clamp shape of NewSnippet)",
+        ],
     ),
 }
